@@ -1,7 +1,7 @@
 """C15 — copy, deepcopy and pickle round-trips preserve and decouple objects.
 
 Explicit-state exploration: object graphs = every seed of every builder/term family and each depth-1 successor
-(the C02 corpus) x {copy.copy, copy.deepcopy, pickle protocols 2..5}; for the seeds additionally every builder
+(the C02 corpus) x {copy.copy, copy.deepcopy, pickle protocols 0..5}; for the seeds additionally every builder
 call of the family's alphabet applied to the duplicate and to the original.  Oracle: the duplicate has the same
 type and the same observation (six dialect contexts, inline and parameterised) as the original; a builder call
 on one side never changes the observation of the other; dynamic attribute lookup still yields Fields.
@@ -24,6 +24,8 @@ PROPERTY = "C15"
 MECHS = {
     "copy": copy.copy,
     "deepcopy": copy.deepcopy,
+    "pickle0": lambda o: pickle.loads(pickle.dumps(o, 0)),
+    "pickle1": lambda o: pickle.loads(pickle.dumps(o, 1)),
     "pickle2": lambda o: pickle.loads(pickle.dumps(o, 2)),
     "pickle3": lambda o: pickle.loads(pickle.dumps(o, 3)),
     "pickle4": lambda o: pickle.loads(pickle.dumps(o, 4)),
@@ -95,7 +97,8 @@ def expand(chunk):
             for m in MECHS:
                 yield {"kind": "dup", "key": k, "mech": m}
     else:
-        for m in MECHS:
+        # builder-call decoupling: one representative per mechanism family (all protocols are covered by "dup")
+        for m in ("copy", "deepcopy", "pickle0", "pickle5"):
             yield {"kind": "decouple", "key": chunk["key"], "mech": m}
 
 
@@ -283,5 +286,5 @@ def describe():
                 "and as a continuation of both; non-trivial = object built; distinct = (object key, mechanism)",
         "bound": {"quick": "as described", "thorough": "same (the space is enumerated completely in both tiers)"},
         "assumptions": ["observation = renderings under six dialect contexts inline and parameterised + str/alias/tables_/fields_",
-                        "pickle protocols 2..5 of the running interpreter"],
+                        "pickle protocols 0..5 of the running interpreter"],
     }
